@@ -52,7 +52,8 @@ def visibleAt (labels : List Label) (pc : Pc) : Ev → Option (Option Label)
   | .rel L => (visLabel labels pc (.v L)).map some
   | .ini L => (visLabel labels pc (.ini L)).map some
 
-/-- the invisible transitions that lead from `pc` to a point where the event is visible -/
+/-- the invisible transitions that lead from `pc` to a point where the event is visible.  A point that carries a yield point
+    cannot be passed silently (the real code always reports the yield there), which makes the explanation unique. -/
 def tauPath (labels : List Label) : Nat → Pc → Ev → Option (List Label)
   | 0, _, _ => none
   | fuel + 1, pc, ev =>
@@ -60,7 +61,9 @@ def tauPath (labels : List Label) : Nat → Pc → Ev → Option (List Label)
     | some _ => some []
     | none =>
       (labels.filter fun l => l.src == pc && l.vis == .tau).findSome? fun l =>
-        (tauPath labels fuel l.dst ev).map (l :: ·)
+        if (visibleAt labels l.dst ev).isSome then some [l]
+        else if (yieldAt l.dst).isSome then none
+        else (tauPath labels fuel l.dst ev).map (l :: ·)
 
 structure Cache where
   st : St
